@@ -13,7 +13,10 @@ SHARD = 6
 SIZES = {'quick': 150, 'thorough': 2500, 'search': 500}
 RULE = ('cases: a problem built through the core API (4-7 locations, metric integer matrix in 11 of 12 cases, 2-4 vehicles with own '
         'costs/capacity/shift/open or closed end, 4-10 jobs: singles with 1-2 places x 1-2 windows, pickup-delivery multi jobs, '
-        'optional compatibility / group / tour-order tags, optional pinned jobs) + a history of 6-18 (thorough: 10-30) calls of the '
+        'optional compatibility / group / tour-order tags, optional pinned jobs, in 1 case of 4 one or two jobs pending in '
+        '`ignored`; 1 case in 4 is a "fleet" case: 8-12 unit jobs on vehicles of capacity 2-3, i.e. 3+ tours, nothing unassigned, '
+        'ignored jobs, half of the steps DecomposeSearch) + a history of 6-18 (thorough: 10-30) calls (1 in 5 under a counting '
+        'quota that interrupts the step after its k-th poll) of the '
         'real operators - every public Ruin (through CompositeRuin = + restore), Recreate, LocalOperator and '
         'HeuristicSearchOperator - driven by a scripted Random (splitmix64). Start state: RecreateWithCheapest on everything. '
         'non-trivial = distinct histories with at least one step that changed the tours.')
@@ -193,6 +196,11 @@ def viol_class(c, impl, k, vs):
     if op == 'search:lkh_improve' and prev is not None and kinds == ['VHomes'] and \
             all(v[2] == 0 and v[1] in prev['req'] for v in vs):
         return 'lkh-improve-drops-pending-jobs'
+    if op == 'search:lkh_improve' and prev is not None and kinds == ['VHomes'] and \
+            all(v[2] == 0 and v[1] in prev['ign'] for v in vs):
+        # repair rebuilt the solution from InsertionContext::new (the ignored jobs became unassigned), then the
+        # original `unassigned` / `required` were restored over it - but not the original `ignored`
+        return 'lkh-improve-drops-ignored-jobs'
     o = c['history'][k - 1] if k > 0 else {}
     runs_sequence = op in ('local:sequence', 'local:composite') or \
         (op == 'search:local_search' and o.get('local') in ('sequence', 'composite'))
